@@ -13,10 +13,10 @@ import (
 // C06: exported Igamc is accurate (1e-12 + 1e-14 a), bounded, exactly 1 for x <= 0, monotone.
 
 type c06Case struct {
-	TwoA int     `json:"two_a"` // shape a = TwoA/2
-	X    float64 `json:"x"`
-	X2   float64 `json:"x2"` // second abscissa, >= X, for the monotonicity pair
-	Kind string  `json:"kind"`
+	TwoA  int       `json:"two_a"` // shape a = TwoA/2
+	X     float64   `json:"x"`
+	X2    float64   `json:"x2"` // second abscissa, >= X, for the monotonicity pair
+	Kind  string    `json:"kind"`
 	Prior []float64 `json:"prior_shapes,omitempty"` // history: shapes evaluated (at the same x) before this call; they may lie outside [0.5, 5000]
 }
 
@@ -178,7 +178,8 @@ func TestC06Sweep(t *testing.T) {
 	ks = append(ks, 1000, 2000, 4001, 8191, 8192, 9999, 10000)
 	for _, k := range ks {
 		a := float64(k) / 2
-		xs := []float64{1, math.Nextafter(1, 0), math.Nextafter(1, 2), a, math.Nextafter(a, 0), math.Nextafter(a, 2*a+1), 0, math.SmallestNonzeroFloat64}
+		xs := []float64{1, math.Nextafter(1, 0), math.Nextafter(1, 2), a, math.Nextafter(a, 0), math.Nextafter(a, 2*a+1), 0, math.SmallestNonzeroFloat64,
+			a - 1, a + 1, a - 2, a + 2, a - 0.5, a + 0.5, a / 2, 2 * a, math.Floor(a), math.Ceil(a), a - math.Sqrt(a), a + math.Sqrt(a)} // lattice points a continued fraction or recurrence starts from
 		if k <= 12 { // tiny positive arguments: Q(1/2, x) = erfc(sqrt x) leaves 1 by 1e-8 already at x = 1e-16
 			xs = append(xs, 1e-10, 1e-13, 1e-15, 2.3e-16, 1.1e-16, 1e-16, 1e-17, 1e-18, 1e-20, 1e-22, 1e-24, 1e-30, 1e-100)
 		}
